@@ -182,7 +182,7 @@ def mixes_str_bytes(*names):
     return fams == {'s', 'b'}
 
 
-OPS_ELEMENT = ['series.reindex', 'series.shift', 'series.assign.iloc', 'series.assign.loc', 'series.fillna', 'frame.reindex', 'frame.shift',
+OPS_ELEMENT = ['series.assign-partial-series(fill_value)', 'frame.assign-partial-frame(fill_value)', 'series.reindex', 'series.shift', 'series.assign.iloc', 'series.assign.loc', 'series.fillna', 'frame.reindex', 'frame.shift',
                'frame.assign.iloc', 'frame.fillna', 'frame.from_records', 'frame.from_dict_records', 'index.append', 'frame.assign.bloc',
                'py.series', 'py.from_records', 'py.from_dict_records', 'py.from_dict', 'py.framego-setitem-list', 'py.series-assign-list', 'py.from_items',
                'frame2d.assign.iloc', 'frame2d.assign.column', 'frame2d.reindex', 'frame2d.shift', 'frame2d.fillna', 'frame2d.assign.bloc']
@@ -262,6 +262,18 @@ def run_elem(case, ctx):
             elif opname == 'series.assign.loc':
                 r = s.assign.loc[['x']](v)
                 pairs = zip([v, orig[1]], list(r.values))
+            elif opname == 'series.assign-partial-series(fill_value)':
+                # a Series value that lacks one of the addressed labels: that cell receives the fill value supplied
+                if ename == 'tuple':
+                    continue
+                r = s.assign[['x', 'y']](sf.Series(proto[:1], index=('x',)), fill_value=v)
+                pairs = zip([orig[0], v], list(r.values))
+            elif opname == 'frame.assign-partial-frame(fill_value)':
+                if ename == 'tuple':
+                    continue
+                r = f.assign.loc[['x', 'y'], ['p']](sf.Frame.from_items((('p', proto[:1]),), index=('x',)), fill_value=v)
+                pairs = zip([orig[0], v], list(columns_of(r)[0]))
+                untouched(ctx, opname, str(other.dtype), str(columns_of(r)[1].dtype), info, pname, ename)
             elif opname == 'series.fillna':
                 if is_missing(v):
                     continue
